@@ -156,10 +156,38 @@ impl Seek for CowDisk {
     }
 }
 
-type Fs = FileSystem<Disk>;
+/// The OEM code-page converter the C17 volumes are mounted with. Outside the `oem-alt` pass it IS the crate's default
+/// converter (every call is delegated to `LossyOemCpConverter`); in the `oem-alt` pass it is an injective test code page
+/// (byte b >= 0x80 <-> U+0100 + b), so that an 8.3 text the library produces with anything but the converter of the volume
+/// (a hard-coded default, a lossy shortcut) differs from what the oracle spells with `lfn::oem_decode`.
+#[derive(Debug, Clone, Copy)]
+struct DrvCp;
+
+impl fatfs::OemCpConverter for DrvCp {
+    fn decode(&self, oem_char: u8) -> char {
+        if lfn::OEM_ALT.load(std::sync::atomic::Ordering::Relaxed) {
+            lfn::oem_decode(oem_char)
+        } else {
+            fatfs::LossyOemCpConverter::new().decode(oem_char)
+        }
+    }
+    fn encode(&self, uni_char: char) -> Option<u8> {
+        if lfn::OEM_ALT.load(std::sync::atomic::Ordering::Relaxed) {
+            match u32::from(uni_char) {
+                c @ 0..=0x7F => Some(c as u8),
+                c @ 0x180..=0x1FF => Some((c - 0x100) as u8),
+                _ => None,
+            }
+        } else {
+            fatfs::LossyOemCpConverter::new().encode(uni_char)
+        }
+    }
+}
+
+type Fs = FileSystem<Disk, fatfs::DefaultTimeProvider, DrvCp>;
 
 fn mount(data: &Rc<RefCell<Vec<u8>>>, budget: &Rc<RefCell<u64>>) -> Fs {
-    FileSystem::new(Disk { data: data.clone(), pos: 0, budget: budget.clone() }, FsOptions::new()).expect("mount")
+    FileSystem::new(Disk { data: data.clone(), pos: 0, budget: budget.clone() }, FsOptions::new().oem_cp_converter(DrvCp)).expect("mount")
 }
 
 thread_local! {
@@ -333,7 +361,7 @@ impl Worker {
                                 for g in got.iter().take(3) {
                                     // entries without a long name are looked up by their 8.3 name (bytes >= 0x80 spelled U+FFFD,
                                     // the documented decoding of the default OEM converter)
-                                    let by_short: String = g.short.iter().map(|b| if *b < 0x80 { *b as char } else { '\u{FFFD}' }).collect();
+                                    let by_short: String = g.short.iter().map(|b| lfn::oem_decode(*b)).collect();
                                     let l16: Vec<u16> = match &g.long {
                                         Some(l) => l.clone(),
                                         None => by_short.encode_utf16().collect(),
@@ -390,9 +418,15 @@ fn c17(args: &[String]) {
     let sub = args[1] == "sub";
     let thorough = args[2] == "thorough";
     let subset = args[2] == "trace-subset";
+    // `oem-alt`: the volume is mounted with the injective test code page (see DrvCp); the families that put bytes >= 0x80
+    // into judged 8.3 names (4, 8, 9), the special cases and the short slot-kind sequences are run once more under it
+    let oem_alt = args[2] == "oem-alt";
+    lfn::OEM_ALT.store(oem_alt, std::sync::atomic::Ordering::Relaxed);
     let nthreads: usize = std::thread::available_parallelism().map_or(4, |n| n.get());
     // work list: (family tag, k, orders, attrs, count)
-    let mut fams: Vec<(usize, &'static [u8], &'static [u8], u64)> = if subset { vec![(1, &ORDERS_FULL, &ATTRS, 0)] } else { vec![(1, &ORDERS_FULL, &ATTRS, 0), (2, &ORDERS_FULL, &ATTRS, 0)] };
+    let mut fams: Vec<(usize, &'static [u8], &'static [u8], u64)> = if oem_alt {
+        vec![]
+    } else if subset { vec![(1, &ORDERS_FULL, &ATTRS, 0)] } else { vec![(1, &ORDERS_FULL, &ATTRS, 0), (2, &ORDERS_FULL, &ATTRS, 0)] };
     if thorough {
         fams.push((3, &ORDERS_SMALL, &ATTRS[..1], 0));
     }
@@ -434,7 +468,7 @@ fn c17(args: &[String]) {
                     }
                 }
                 // family 6: every sequence of slot kinds (reader state machine)
-                for len in 1..=(if thorough { 7usize } else if subset { 3 } else { 5 }) {
+                for len in 1..=(if thorough { 7usize } else if subset || oem_alt { 3 } else { 5 }) {
                     let count = family6_count(len);
                     let mut idx = t as u64;
                     while idx < count {
@@ -454,7 +488,7 @@ fn c17(args: &[String]) {
                 }
                 // family 7: every 16-bit value in all five date/time words of a short entry x boundary values of the 10 ms byte
                 // (field combinations that a single-byte sweep cannot reach)
-                if !subset {
+                if !subset && !oem_alt {
                     let mut tw = t as u32;
                     while tw < 65536 {
                         for hi in [0u8, 99, 100, 199, 200, 255] {
